@@ -242,7 +242,7 @@ Lemma ind_true_rel U U' chk chk' R R' : Permutation U U' -> dequiv R R' ->
   ind_true A eqb U chk R = ind_true A eqb U' chk' R'.
 Proof.
   intros HU HR Hc. unfold ind_true. destruct (wfm_rel R R' U U' HR HU) as [|m m' [H1 H2]]; [reflexivity|]. cbv beta iota.
-  rewrite (Hc _ _ H1). reflexivity.
+  f_equal. apply Hc. exact H1.
 Qed.
 
 Lemma holds_rel T T' ev ev' : eqset T T' -> Permutation ev ev' ->
